@@ -32,6 +32,8 @@ Mutations(doc) ==
   \cup { Mut([doc EXCEPT ![i].dirs = Append(@, DU("nodir", <<>>))], "undef_directive_type_level") : i \in {i \in DOMAIN doc : doc[i].kind \notin {"DIRECTIVE", "SCHEMA"}} }
   \cup { Mut([doc EXCEPT ![i].fields[1].dirs = Append(@, DU("nodir", <<>>))], "undef_directive_field_level") : i \in WithFields(doc) }
   \cup { Mut([doc EXCEPT ![i].values[1].dirs = Append(@, DU("nodir", <<>>))], "undef_directive_enum_value") : i \in Kind(doc, "ENUM") }
+  \cup { Mut([doc EXCEPT ![p[1]].fields[p[2]].args[1].dirs = Append(@, DU("nodir", <<>>))], "undef_directive_field_arg") : p \in FArgs(doc) }
+  \cup { Mut([doc EXCEPT ![i].infields[1].dirs = Append(@, DU("nodir", <<>>))], "undef_directive_input_field") : i \in Kind(doc, "INPUT_OBJECT") }
   \cup { Mut([doc EXCEPT ![i].args[1].type = Named("Nope")], "undef_directive_arg_type") : i \in Kind(doc, "DIRECTIVE") }
   \* ---- duplicates
   \cup { Mut([doc EXCEPT ![i].fields = Append(@, @[1])], "dup_field") : i \in WithFields(doc) }
